@@ -139,7 +139,9 @@ func (cm cronMask) IsRunAt(t time.Time) bool {
 			return false
 		}
 		tm := t.Month()
-		m := t.Add(time.Hour * 7 * 24).Month()
+		// the same wall-clock time a week later (not 168 hours later, which lands
+		// on another day when a daylight saving transition is in between)
+		m := t.AddDate(0, 0, 7).Month()
 		if tm != m {
 			return true
 		}
